@@ -30,6 +30,63 @@ var (
 
 // traceStore runs one real store under strace and returns the kinds of the calls that touch the
 // store directory, in order: 1 create-temp(O_EXCL) 2 write 3 chmod 4 fsync 5 close 6 rename 7 open-truncate.
+type killPoint struct {
+	syscall string
+	nth     int
+	line    string
+}
+
+var reCallName = regexp.MustCompile(`^\d+\s+(\w+)\(`)
+
+// killPoints: one real store under strace; for every file-system call from the first one that names
+// the store directory on, the call's name and its occurrence number among the calls of that name
+// (strace's fault injection counts per system call name). Killing the process at the entry of that
+// call leaves exactly the effects of the calls before it.
+func killPoints(setup func(string), base, docfile string) []killPoint {
+	d := filepath.Join(base, "probe")
+	_ = os.Mkdir(d, 0o755)
+	setup(d)
+	defer os.RemoveAll(d)
+	tf := filepath.Join(base, "probe.trace")
+	cmd := exec.Command("strace", "-f", "-qq", "-o", tf,
+		"-e", "trace=openat,write,fsync,fdatasync,fchmod,close,rename,renameat,renameat2,ftruncate,unlink,unlinkat",
+		storechildPath(), "store", d, docfile, "false")
+	if err := cmd.Run(); err != nil {
+		return nil
+	}
+	raw, _ := os.ReadFile(tf)
+	_ = os.Remove(tf)
+	count := map[string]int{}
+	var pts []killPoint
+	started := false
+	for _, line := range strings.Split(string(raw), "\n") {
+		m := reCallName.FindStringSubmatch(line)
+		if m == nil {
+			continue
+		}
+		count[m[1]]++
+		if strings.Contains(line, d+"/") {
+			started = true
+		}
+		if started && !strings.Contains(line, "write(1,") {
+			l := line
+			if len(l) > 160 {
+				l = l[:160]
+			}
+			pts = append(pts, killPoint{m[1], count[m[1]], l})
+		}
+	}
+	return pts
+}
+
+func killAt(kp killPoint, d, docfile string) {
+	cmd := exec.Command("strace", "-f", "-qq", "-o", "/dev/null",
+		"-e", "trace="+kp.syscall,
+		"-e", fmt.Sprintf("inject=%s:signal=KILL:when=%d", kp.syscall, kp.nth),
+		storechildPath(), "store", d, docfile, "false")
+	_ = cmd.Run()
+}
+
 func traceStore(sdir, docfile string) ([]int, []string, error) {
 	tf, _ := os.CreateTemp("", "verif-strace-")
 	tf.Close()
@@ -189,7 +246,7 @@ func smallDoc(id, name string) (*sbom.Document, []byte) {
 func runC20(seed int64, n int, dir string, tier string) *Report {
 	g := gen.New(seed)
 	rep := NewReport("C20", seed)
-	rep.Rule = "per round (n rounds; first-time store or overwrite, random small documents): (A) one real Store run under strace, its file-system calls on the store directory compared with the model's store_ops; (B) every post-crash directory listing of the crash model (call boundaries, torn writes, un-synced prefixes) enumerated independently in Go, compared as a set with the Coq crash_states, materialised on disk and read back with the real Retrieve in a fresh process; (C) the real store process killed (strace fault injection, SIGKILL) at the k-th file-system call for every k, then Retrieve in a fresh process; non-trivial = overwrite rounds; distinct by hash"
+	rep.Rule = "per round (n rounds; first-time store or overwrite, random small documents): (A) one real Store run under strace, its file-system calls on the store directory compared with the model's store_ops; (B) every post-crash directory listing of the crash model (call boundaries, torn writes, un-synced prefixes) enumerated independently in Go, compared as a set with the Coq crash_states, materialised on disk and read back with the real Retrieve in a fresh process; (C) the real store process killed (strace fault injection, SIGKILL) at the k-th file-system call for every k, then Retrieve in a fresh process; the same with a 3 kB document followed by a complete store of a short one and a Retrieve; non-trivial = overwrite rounds; distinct by hash"
 	cf := &CasesFile{Imports: "Model.Base Model.Store Corr.CheckC20", Type: "case20", Eval: "mismatches"}
 	if _, err := exec.LookPath("strace"); err != nil {
 		rep.Notes = append(rep.Notes, "strace not available: parts (A) and (C) skipped")
@@ -325,21 +382,40 @@ func runC20(seed int64, n int, dir string, tier string) *Report {
 
 		// (C) kill the real process at the k-th file-system call
 		if _, err := exec.LookPath("strace"); err == nil && (tier == "thorough" || round < 2) {
-			for k := 1; k <= 40; k++ {
+			for k, kp := range killPoints(setup, base, docfile) {
 				kd := filepath.Join(base, fmt.Sprintf("kill%d", k))
 				_ = os.Mkdir(kd, 0o755)
 				setup(kd)
-				cmd := exec.Command("strace", "-f", "-qq", "-o", "/dev/null",
-					"-e", "trace=openat,write,fsync,fchmod,close,renameat,rename,renameat2",
-					"-e", fmt.Sprintf("inject=openat,write,fsync,fchmod,close,renameat,rename,renameat2:signal=KILL:when=%d", k),
-					storechildPath(), "store", kd, docfile, "false")
-				err := cmd.Run()
-				check(fmt.Sprintf("process killed at file-system call %d", k), kd, map[string]any{"killed_at_call": k})
+				killAt(kp, kd, docfile)
+				check(fmt.Sprintf("process killed at the entry of %s", kp.line), kd, map[string]any{"killed_before": kp.line})
 				_ = os.RemoveAll(kd)
 				rep.Count("real_kills")
-				if err == nil {
-					break // the store completed before the k-th call: all crash points covered
+			}
+			// the same with a long document, followed by a complete store of a short one under the same
+			// identifier: whatever the interrupted store left behind must not leak into the next entry
+			_, bigB := smallDoc(id, "BIG-"+strings.Repeat("HA", 1500))
+			_, shortB := smallDoc(id, "S")
+			bigfile, shortfile := filepath.Join(base, "big.pb"), filepath.Join(base, "short.pb")
+			_ = os.WriteFile(bigfile, bigB, 0o644)
+			_ = os.WriteFile(shortfile, shortB, 0o644)
+			for k, kp := range killPoints(setup, base, bigfile) {
+				kd := filepath.Join(base, fmt.Sprintf("killbig%d", k))
+				_ = os.Mkdir(kd, 0o755)
+				setup(kd)
+				killAt(kp, kd, bigfile)
+				rep.OracleEvals++
+				st := runChild(false, "store", kd, shortfile, "false")
+				if st.Outcome == "ok" {
+					r := runChild(false, "retrieve", kd, hex.EncodeToString([]byte(id)))
+					raw, _ := decodeB64(r.Doc)
+					if r.Outcome != "ok" || string(raw) != string(shortB) {
+						rep.Fail(Failure{What: "after a store interrupted by a crash, a later complete store of the same identifier is not what Retrieve returns (mixed, truncated or unreadable entry)", Detail: fmt.Sprintf("killed at the entry of %s of a %d-byte store, then stored %d bytes: retrieve %s %s, %d bytes", kp.line, len(bigB), len(shortB), r.Outcome, r.Error, len(raw)), Input: map[string]any{"overwrite": overwrite, "id": id, "killed_before": kp.line}})
+					}
+				} else {
+					rep.Count("followup_store:" + st.Outcome)
 				}
+				_ = os.RemoveAll(kd)
+				rep.Count("real_kills_then_store")
 			}
 		}
 		_ = os.RemoveAll(base)
